@@ -172,6 +172,26 @@ deriving Repr, DecidableEq
 def finish (inplace : Bool) (h h' : HG) : CallResult :=
   if inplace then { arg := h', ret := none } else { arg := h, ret := some h' }
 
+/-! ### which OBJECT carries the result
+The routines with an `inplace` option end in `h = hg if inplace else hg.copy()` ... `return h`.  Objects are entries of a
+store (object id -> content); mutating an object is `AL.set` at its id. -/
+
+/-- live objects: object id -> content -/
+abbrev Heap := List (Nat × HG)
+
+/-- `hg.copy()` allocates an object that did not exist before: an id above every id in use -/
+def freshId (H : Heap) : Nat := (AL.keys H).foldl max 0 + 1
+
+/-- hand back the result `h'` of a call on the object `a`: `inplace=True` writes it into `a` and returns nothing (`none`),
+    `inplace=False` writes it into a new object and returns that object.  (For `random_shuffle_all_orders(inplace=True)`
+    the returned object is `a` itself - see `finishObjAll`.) -/
+def finishObj (H : Heap) (a : Nat) (inplace : Bool) (h' : HG) : Heap × Option Nat :=
+  if inplace then (AL.set H a h', none) else (AL.set H (freshId H) h', some (freshId H))
+
+/-- `random_shuffle_all_orders` returns `target_hg` in both modes -/
+def finishObjAll (H : Heap) (a : Nat) (inplace : Bool) (h' : HG) : Heap × Option Nat :=
+  if inplace then (AL.set H a h', some a) else (AL.set H (freshId H) h', some (freshId H))
+
 def addRandomEdge (h : HG) (order size : Option Nat) (inplace : Bool) (draw : List Nat) : Option CallResult :=
   match resolveSize order size with
   | none => none
@@ -279,7 +299,7 @@ structure HoadDraw where
   coin : Rat
   sampled : Bool
   sample : List Nat
-deriving Repr
+deriving Repr, DecidableEq
 
 /-- `neigh_list.append(node_i); if len(neigh_list) == len(set(neigh_list))` -/
 def hoadEmit (t i : Nat) (s : List Nat) : List (Nat × Edge) :=
@@ -288,50 +308,78 @@ def hoadEmit (t i : Nat) (s : List Nat) : List (Nat × Edge) :=
 /-- contract of `random.sample(range(N), order)` as far as the routine relies on it -/
 def sampleOK (N order : Nat) (s : List Nat) : Bool := s.length == order && s.all (· < N)
 
-/-- one node: `none` when the recording contradicts the branch taken by the model or the sampler's contract -/
-def hoadNode (N order : Nat) (act : Rat) (t i : Nat) (d : HoadDraw) : Option (List (Nat × Edge)) :=
-  if act > d.coin then (if d.sampled && sampleOK N order d.sample then some (hoadEmit t i d.sample) else none)
-  else (if d.sampled then none else some [])
+/-- outcome of a run of the routine on a recording: it returned (`done`), it raised (`raised`: `act_vect[node_i]`
+    beyond the end of the activity vector, or `random.sample(range(N), order)` with `order > N`; carries the part of the
+    recording that was not consumed), or the recording does not belong to a run of this routine (`stuck`) -/
+inductive Run (α : Type) where
+  | done (a : α)
+  | raised (rest : List HoadDraw)
+  | stuck
+deriving Repr, DecidableEq
 
-/-- nodes `i, i+1, ..` of one time step; `acts` is the remaining activity vector -/
-def hoadNodes (N order t : Nat) : List Rat → Nat → List HoadDraw → Option (List (Nat × Edge) × List HoadDraw)
-  | [], _, ds => some ([], ds)
-  | a :: acts, i, d :: ds =>
-    match hoadNode N order a t i d with
-    | none => none
-    | some out =>
-      match hoadNodes N order t acts (i + 1) ds with
-      | none => none
-      | some (outs, rest) => some (out ++ outs, rest)
-  | _ :: _, _, [] => none
+/-- one node: `stuck` when the recording contradicts the branch taken by the model or the sampler's contract;
+    an activated node with `order > N` makes `random.sample` raise (after the coin, before any sample is recorded) -/
+def hoadNode (N order : Nat) (act : Rat) (t i : Nat) (d : HoadDraw) (ds : List HoadDraw) : Run (List (Nat × Edge)) :=
+  if act > d.coin then
+    (if order > N then (if d.sampled then .stuck else .raised ds)
+     else if d.sampled && sampleOK N order d.sample then .done (hoadEmit t i d.sample) else .stuck)
+  else (if d.sampled then .stuck else .done [])
+
+/-- `for node_i in range(N)`: nodes `i, i+1, .., i+k-1` of one time step; the activity is LOOKED UP at position `node_i`
+    of the vector (`act_vect[node_i]`), whatever the length of the vector: entries beyond `N` are never read, a vector
+    that is too short raises `IndexError` when the loop reaches its end -/
+def hoadNodes (N order t : Nat) (acts : List Rat) : Nat → Nat → List HoadDraw → Run (List (Nat × Edge) × List HoadDraw)
+  | 0, _, ds => .done ([], ds)
+  | k + 1, i, ds =>
+    match acts[i]? with
+    | none => .raised ds
+    | some a =>
+      match ds with
+      | [] => .stuck
+      | d :: ds =>
+        match hoadNode N order a t i d ds with
+        | .stuck => .stuck
+        | .raised r => .raised r
+        | .done out =>
+          match hoadNodes N order t acts k (i + 1) ds with
+          | .done (outs, rest) => .done (out ++ outs, rest)
+          | .raised r => .raised r
+          | .stuck => .stuck
 
 /-- time steps `t, t+1, .., t+steps-1` -/
-def hoadTimes (N order : Nat) (acts : List Rat) : Nat → Nat → List HoadDraw → Option (List (Nat × Edge) × List HoadDraw)
-  | 0, _, ds => some ([], ds)
+def hoadTimes (N order : Nat) (acts : List Rat) : Nat → Nat → List HoadDraw → Run (List (Nat × Edge) × List HoadDraw)
+  | 0, _, ds => .done ([], ds)
   | steps + 1, t, ds =>
-    match hoadNodes N order t acts 0 ds with
-    | none => none
-    | some (out, rest) =>
+    match hoadNodes N order t acts N 0 ds with
+    | .stuck => .stuck
+    | .raised r => .raised r
+    | .done (out, rest) =>
       match hoadTimes N order acts steps (t + 1) rest with
-      | none => none
-      | some (outs, rest') => some (out ++ outs, rest')
+      | .done (outs, rest') => .done (out ++ outs, rest')
+      | .raised r => .raised r
+      | .stuck => .stuck
 
-def hoadOrders (N time : Nat) : List (Nat × List Rat) → List HoadDraw → Option (List (Nat × Edge) × List HoadDraw)
-  | [], ds => some ([], ds)
+/-- `for order in activities_per_order.keys()` (dict order) -/
+def hoadOrders (N time : Nat) : List (Nat × List Rat) → List HoadDraw → Run (List (Nat × Edge) × List HoadDraw)
+  | [], ds => .done ([], ds)
   | (order, acts) :: more, ds =>
     match hoadTimes N order acts time 0 ds with
-    | none => none
-    | some (out, rest) =>
+    | .stuck => .stuck
+    | .raised r => .raised r
+    | .done (out, rest) =>
       match hoadOrders N time more rest with
-      | none => none
-      | some (outs, rest') => some (out ++ outs, rest')
+      | .done (outs, rest') => .done (out ++ outs, rest')
+      | .raised r => .raised r
+      | .stuck => .stuck
 
-/-- `HOADmodel(N, activities_per_order, time)`: the distinct (time, hyperedge) records of the returned
-    `TemporalHypergraph`; `acts` lists (order, activity vector of length N) in dict order;
-    `none`: the draws do not follow the pattern coin [sample] or break the sampler's contract -/
-def hoad (N time : Nat) (acts : List (Nat × List Rat)) (draws : List HoadDraw) : Option (List (Nat × Edge)) :=
+/-- `HOADmodel(N, activities_per_order, time)`: `done out` = the distinct (time, hyperedge) records of the returned
+    `TemporalHypergraph`; `acts` lists (order, activity vector) in dict order, the vectors have ANY length;
+    `raised []` = the call raised exactly at the end of the recording; `stuck`: the draws do not follow the pattern
+    coin [sample], break the sampler's contract, or are not used up -/
+def hoad (N time : Nat) (acts : List (Nat × List Rat)) (draws : List HoadDraw) : Run (List (Nat × Edge)) :=
   match hoadOrders N time acts draws with
-  | some (out, []) => some (dedup out)
-  | _ => none
+  | .done (out, []) => .done (dedup out)
+  | .raised [] => .raised []
+  | _ => .stuck
 
 end C14
